@@ -73,9 +73,11 @@ def steps(lines):
 
 
 REFNAME = 'ref<&"1>.xml'
+EXPECT_DOCS = {name: (rc, n) for name, _doc, rc, n in G.xml_documents()}
+by_script = {}     # case name -> script lines (filled by check)
 
 
-def xml_ok(line, n):
+def xml_ok(line, n, has_tc=False):
     """the XML round-trip clause on one 'xml ...' line of the harness: export succeeds, the returned length is
     strlen+1, the loaded list and refname are the exported ones, the file variant holds the same bytes as the
     buffer (without the NUL) and loads to the same list"""
@@ -83,6 +85,8 @@ def xml_ok(line, n):
         return "XML export/load did not return"
     f = kv(line)
     ref = G.hx(REFNAME)
+    if has_tc:
+        return None if (f.get("export") == "-1" and f.get("fexport") == "-1") else "a list holding a TOO_COMPLEX entry was exported (doc: only lists without one may be)"
     if f.get("export") != "0":
         return "export_xmlbuffer failed"
     bad = []
@@ -95,6 +99,8 @@ def xml_ok(line, n):
         bad.append("export_xml to a file: rc=%s, %s bytes, same bytes as the buffer variant=%s" % (f.get("fexport"), f.get("fsize"), f.get("fsame")))
     if f.get("fload") != "0" or f.get("fsamelist") != "1" or f.get("fref") != ref:
         bad.append("load_xml of the exported file: rc=%s same=%s" % (f.get("fload"), f.get("fsamelist")))
+    if f.get("fbad") != "-1" or f.get("lbad") != "-1":
+        bad.append("export_xml to / load_xml from a path that cannot exist: rc=%s / %s" % (f.get("fbad"), f.get("lbad")))
     return "; ".join(bad) if bad else None
 
 
@@ -109,9 +115,40 @@ def evaluate(case, clines, mlines):
     c_crashed = not cx or cx[-1] != "X ok"
     m_crashed = bool(mx) and mx[-1].startswith("X crash")
     csteps_all, msteps = steps(clines), steps(mlines)
+    # argument checks of build/apply
+    mis = [l for l in clines if l.startswith("misuse ")]
+    if mis:
+        want = ["misuse build-unloaded-first -1 EINVAL untouched=1", "misuse build-unloaded-second -1 EINVAL untouched=1",
+                "misuse build-flags -1 EINVAL untouched=1", "misuse apply-unloaded -1 EINVAL", "misuse apply-adopted -1 EPERM"]
+        if mis != want:
+            bad = next((a for a, b in zip(mis + [""] * 5, want) if a != b), "?")
+            viol.append(("argument-checks:" + case, "build/apply argument check: got '%s'" % bad))
+        if state(clines, "M") != stateA:
+            viol.append(("argument-checks:" + case, "a refused apply changed the topology"))
+        mf = [l for l in mlines if l.startswith("mflags")]
+        if mf != ["mflags -1 0"]:
+            viol.append(("correspondence:" + case, "model of diff_build with flags != 0: %r" % mf))
+    # arbitrary documents given to the importer
+    xl = next((l for l in clines if l.startswith("xmlload ")), None)
+    if xl is not None or any(l.startswith("xmlload") for l in by_script.get(case, [])):
+        m = re.match(r"xmlload-i(\d)-(.*)$", case)
+        exp = EXPECT_DOCS.get(m.group(2)) if m else None
+        if xl is None:
+            viol.append(("xml-import-crash:" + case, "load_xmlbuffer of a document did not return: %s" % (cx[-1] if cx else "?")))
+        else:
+            f = xl.split()
+            rc, n = int(f[1]), int(f[2][2:])
+            if exp and exp[0] is not None and (rc != exp[0] or (exp[1] is not None and n != exp[1])):
+                viol.append(("xml-import:" + (m.group(2) if m else case), "diff importer (%s) on document '%s': rc=%d n=%d, expected rc=%d n=%s" % (
+                    ("nolibxml", "libxml")[int(m.group(1))], m.group(2), rc, n, exp[0], exp[1])))
+            if rc == 0 and not (exp and exp[1] is None):
+                rl = next((l for l in clines if l.startswith("xmlreload ")), "")
+                if rl != "xmlreload 0 same=1 refsame=1":
+                    viol.append(("xml-roundtrip:" + case, "a loaded list does not survive export + load: '%s'" % rl))
     for xs in [c for c in csteps_all if c["kind"] == "xml"]:
         n = int(xs["lines"][0].split()[1])
-        why = xml_ok(next((l for l in xs["lines"] if l.startswith("xml ")), None), n)
+        tc_in = any(l.startswith("D tc") for l in by_script.get(case, []))
+        why = xml_ok(next((l for l in xs["lines"] if l.startswith("xml ")), None), n, tc_in)
         if why:
             m = re.match(r"xml-e(\d)-i(\d)-", case)
             key = "xml-roundtrip:%s-export-%s-import" % (("nolibxml", "libxml")[int(m.group(1))], ("nolibxml", "libxml")[int(m.group(2))]) if m else "xml-roundtrip:" + case
@@ -121,7 +158,8 @@ def evaluate(case, clines, mlines):
     hypB = kv(next((l for l in mlines if l.startswith("hyp B ")), "hyp"))
     # total_memory is compared only when it is the sum of the local memories on both sides
     tm = hypA.get("tmem_consistent") == "1" and hypB.get("tmem_consistent") == "1"
-    wferr = [l for l in clines if l.startswith("E ") and not l.endswith(" 0")]
+    # B may be any topology (even hand-edited); the level arrays matter for the one apply runs on
+    wferr = [l for l in clines if l.startswith("E A ") and not l.endswith(" 0")]
     if wferr:
         viol.append(("levels-inconsistent:" + case, "level arrays / parent pointers disagree with the tree: %s" % wferr[0]))
     if any(l.startswith("editfail") or l.startswith("bad") or l.startswith("topo error") for l in clines):
@@ -263,7 +301,7 @@ def check(run, replay=None):
         for l in outp.split("\n"):
             if l.startswith("xml export=0"):
                 base = int(kv(l)["len"]) - 100
-        for xc in G.xml_cases(rng, base, run.tier):
+        for xc in G.xml_cases(rng, base, run.tier) + G.xmlload_cases():
             cases.append((xc[0][5:], xc))
         topos = G.topo_lines(C.REPO, run.tier)
         rc, out, err, _, _, _ = run_script(exe, drv, G.probe_script(topos))
@@ -293,6 +331,8 @@ def check(run, replay=None):
     cc, order = split_cases(out)
     mc, _ = split_cases(mout)
     by_name = dict(cases)
+    by_script.clear()
+    by_script.update(by_name)
     hyp_stats = {}
     first_of_key = {}
     for name in order:
@@ -300,7 +340,7 @@ def check(run, replay=None):
         viol, diff = evaluate(name, cl, ml)
         res = [l for l in cl if KEEP.match(l)]
         nontriv = any(l.startswith("D ") for l in res)
-        kind = "xml" if any(l.startswith("xmlhand") for l in cl) else ("hand" if any(l.startswith("hand") for l in res) else "pair")
+        kind = "xmlload" if any(l.startswith("xmlload") for l in cl) else "misuse" if any(l.startswith("misuse") for l in cl) else "xml" if any(l.startswith("xmlhand") for l in cl) else ("hand" if any(l.startswith("hand") for l in res) else "pair")
         run.count("\n".join(res), nontrivial=nontriv, sample={"case": by_name.get(name, [])[:12], "impl": res[:6]}, kind=kind)
         for l in ml:
             if l.startswith("hyp A") or l.startswith("hypd") or l.startswith("hyph"):
